@@ -14,6 +14,11 @@ def sh(cmd, **kw):
 
 def main():
     patch, demo, checks = sys.argv[1], sys.argv[2], sys.argv[3:]
+    # the demonstrations assert that codelimit is imported from their scratch worktree: point them at /repo
+    import re
+    text = re.sub(r"/tmp/wt_C\d+", REPO, open(demo).read())
+    demo = "/tmp/_demo_under_test.py"
+    open(demo, "w").write(text)
     assert sh(f"git -C {REPO} status --porcelain").stdout.strip() == "", "/repo not clean"
     env = dict(os.environ, PYTHONPATH=REPO, LC_ALL="C")
     out = {"patch": patch}
